@@ -34,10 +34,15 @@ fn format_line_comment(tok: &mut Token) {
         new_content = Some(str);
     }
 
-    let trimmed = content.trim_ascii_end();
+    // Everything the lexer treats as whitespace (U+0000 to U+0020 and U+3000) is trimmed.
+    fn trim_blank_end(s: &str) -> &str {
+        s.trim_end_matches(|c: char| c <= ' ' || c == '\u{3000}')
+    }
+
+    let trimmed = trim_blank_end(content);
     if trimmed.len() != content.len() {
         let new_content = new_content.get_or_insert_with(|| content.to_string());
-        new_content.truncate(new_content.trim_ascii_end().len());
+        new_content.truncate(trim_blank_end(new_content).len());
     }
 
     if let Some(new_content) = new_content {
